@@ -597,3 +597,178 @@ def contains_call(e, pred):
         if x.k == "call" and pred(x.a[0]):
             return x
     return None
+
+
+# ---------------------------------------------------------------------------
+# length lower-bound dataflow for a Vec reached through a parameter (C02.R3, C15.R2 upper bound)
+
+class VecBounds:
+    """Forward dataflow over one body tracking [lo, hi] bounds (lo in 0..2, hi in 0..CAP or INF) of the
+    length of one container identified by (param index, field path).  Calls into local functions that
+    receive (a prefix of) the path by &mut use a recursively computed summary."""
+    INF = 10 ** 6
+    CAP = 64          # widening threshold for the upper bound
+
+    def __init__(self, prog, mods):
+        self.prog = prog
+        self.mods = mods
+        self._summ = {}
+
+    def _same(self, e, param, fields):
+        root, f = apath(e)
+        return root.k == "arg" and root.a[0] == param and f == fields
+
+    def _prefix(self, e, param, fields):
+        root, f = apath(e)
+        return root.k == "arg" and root.a[0] == param and fields[:len(f)] == f
+
+    def transfer_call(self, b, bb, t, st, param, fields, depth):
+        lo, hi = st
+        name = callee_name(t)
+        args = [b.expr_operand(a) for a in t["args"]]
+        touched = None
+        for ai, a in enumerate(t["args"]):
+            if a["k"] == "const":
+                continue
+            ty = a["place"]["ty"]
+            if not ty.startswith("&mut "):
+                continue
+            if self._same(args[ai], param, fields):
+                touched = ("exact", ai)
+            elif self._prefix(args[ai], param, fields) and touched is None:
+                touched = ("prefix", ai)
+        if touched is None:
+            return st
+        kind, ai = touched
+        local = name in self.prog.fns
+        if local:
+            root, f = apath(args[ai])
+            rest = fields[len(f):]
+            s = self.summary(name, ai + 1, rest, st, depth + 1)
+            return s
+        if kind == "prefix":
+            return (0, self.INF)        # unknown callee got a &mut to an enclosing object
+        n = name
+        if n.endswith("::clear"):
+            return (0, 0)
+        if n.endswith("Vec::<T, A>::push"):
+            return (min(lo + 1, 2), hi + 1 if hi < self.CAP else self.INF)
+        if n.endswith("::extend") or n.endswith("::append") or n.endswith("::extend_from_slice"):
+            return (lo, self.INF)
+        if n.endswith("::truncate"):
+            c = strip_refs(args[1])
+            if is_const(c, "int"):
+                return (min(lo, const_val(c)), min(hi, const_val(c)))
+            return (0, hi)
+        if n.endswith("::dedup") or n.endswith("::dedup_by") or n.endswith("::dedup_by_key"):
+            return (min(lo, 1), hi)
+        if any(n.endswith(s) for s in ("::sort", "::sort_unstable", "::sort_by", "::sort_by_key", "::sort_unstable_by",
+                                       "::iter_mut", "::deref_mut", "::reverse", "::as_mut_slice", "::iter", "::len",
+                                       "::is_empty", "::deref", "::shrink_to_fit", "::reserve", "::first_mut", "::last_mut",
+                                       "::get_mut", "::swap", "::sort_unstable_by_key")):
+            return (lo, hi)
+        if n.endswith("::pop") or n.endswith("::remove") or n.endswith("::swap_remove"):
+            return (max(lo - 1, 0), hi)
+        if n.endswith("::insert"):
+            return (min(lo + 1, 2), hi + 1 if hi < self.CAP else self.INF)
+        return (0, self.INF if not (n.endswith("::retain") or n.endswith("::drain") or n.endswith("::retain_mut")) else hi)
+
+    def run(self, key, param, fields, entry, depth=0):
+        """Returns {bb: state at block entry}, and a function to get the state right before a position."""
+        b = self.prog.body(key)
+        IN = {0: entry}
+        work = [0]
+        it = 0
+        while work and it < 20000:
+            it += 1
+            x = work.pop()
+            st = IN[x]
+            st = self._block_out(b, x, st, param, fields, depth)
+            outs = []
+            t = b.blocks[x]["term"]
+            if t["k"] == "switch" and t["discr_ty"] == "bool":
+                d = strip_refs(b.expr_operand(t["discr"]))
+                neg = False
+                while d.k == "un" and d.a[0] == "Not":
+                    d = strip_refs(d.a[1])
+                    neg = not neg
+                fact = None      # (polarity under which len >= 1)
+                if d.k == "call" and d.a[1]:
+                    recv = d.a[1][0]
+                    while True:
+                        recv = strip_refs(recv)
+                        if recv.k == "call" and recv.a[0].endswith("::deref") and len(recv.a[1]) == 1:
+                            recv = recv.a[1][0]
+                            continue
+                        break
+                    if self._same(recv, param, fields):
+                        if d.a[0].endswith("::contains"):
+                            fact = True
+                        elif d.a[0].endswith("::is_empty"):
+                            fact = False
+                pols = bool_switch_polarity(b, x)
+                for (node, vals, tgt) in b.switch_edges(x):
+                    pol = pols.get(node)
+                    if pol is not None and neg:
+                        pol = not pol
+                    st2 = st
+                    if fact is not None and pol is not None:
+                        if pol == fact:
+                            st2 = (max(st[0], 1), st[1])
+                        elif fact is False and pol is True:
+                            st2 = (0, 0)
+                    outs.append((tgt, st2))
+            else:
+                outs = [(s_, st) for s_ in b.bsucc[x]]
+            for s_, st2 in outs:
+                old = IN.get(s_)
+                new = st2 if old is None else (min(old[0], st2[0]), max(old[1], st2[1]))
+                if new != old:
+                    IN[s_] = new
+                    work.append(s_)
+        return b, IN
+
+    def _block_out(self, b, x, st, param, fields, depth):
+        blk = b.blocks[x]
+        for s in blk["stmts"]:
+            if s["k"] == "assign" and s["place"]["p"]:
+                lhs = b.expr_place(s["place"])
+                if self._same(lhs, param, fields) or (self._prefix(lhs, param, fields)):
+                    st = (0, self.INF)
+        t = blk["term"]
+        if t["k"] == "call":
+            st = self.transfer_call(b, x, t, st, param, fields, depth)
+        return st
+
+    def state_before_term(self, key, param, fields, bb, entry=(0, 10 ** 6)):
+        b, IN = self.run(key, param, fields, entry)
+        st = IN.get(bb)
+        if st is None:
+            return None
+        blk = b.blocks[bb]
+        for s in blk["stmts"]:
+            if s["k"] == "assign" and s["place"]["p"]:
+                lhs = b.expr_place(s["place"])
+                if self._same(lhs, param, fields) or self._prefix(lhs, param, fields):
+                    st = (0, self.INF)
+        return st
+
+    def summary(self, key, param, fields, entry, depth=0):
+        k = (key, param, fields, entry)
+        if k in self._summ:
+            return self._summ[k]
+        if depth > 6:
+            return (0, self.INF)
+        self._summ[k] = (0, self.INF)      # recursion guard (conservative)
+        b, IN = self.run(key, param, fields, entry, depth)
+        res = None
+        for rb in b.return_blocks:
+            st = IN.get(rb)
+            if st is None:
+                continue
+            st = self._block_out(b, rb, st, param, fields, depth)
+            res = st if res is None else (min(res[0], st[0]), max(res[1], st[1]))
+        if res is None:
+            res = (0, self.INF)
+        self._summ[k] = res
+        return res
